@@ -176,13 +176,31 @@ pub fn check_filter(
     text: &str,
     ctxs: &[(Ctx, ListState)],
 ) -> usize {
+    check_filter_obs(run, l, prop, family, index, eng, expr, text, ctxs, &mut |_, _, _, _| {})
+}
+
+/// Like `check_filter`, additionally handing every RefSem evaluation (and its
+/// context number) to `obs` so that monitors can count what was observed.
+#[allow(clippy::too_many_arguments)]
+pub fn check_filter_obs(
+    run: &Run,
+    l: &mut Local,
+    prop: &str,
+    family: &str,
+    index: u64,
+    eng: &Eng,
+    expr: &Expr,
+    text: &str,
+    ctxs: &[(Ctx, ListState)],
+    obs: &mut dyn FnMut(&Eval<'_>, usize, &[crate::refsem::CallEvent], &[crate::refsem::ListEvent]),
+) -> usize {
     let mut bad = 0;
     // parse + compile once
     let ast = match guard(|| eng.scheme.parse(text).map_err(|e| e.to_string())) {
         Ok(Ok(a)) => a,
         Ok(Err(e)) => {
             run.violation(
-                &format!("{}/parse-rejects-well-typed/{}", prop, shape(expr, 2)),
+                &format!("{}/parse-rejects-well-typed/{}", prop, error_kind(&e)),
                 "accepts-well-typed",
                 family,
                 index,
@@ -214,19 +232,21 @@ pub fn check_filter(
             return 1;
         }
     };
-    for (vals, lists) in ctxs {
+    for (ci, (vals, lists)) in ctxs.iter().enumerate() {
         l.evals += 1;
-        let expected = match refsem_filter(&eng.env, expr, vals, lists) {
-            Ok(b) => b,
-            Err(_) => {
-                l.count("refsem_unsupported");
-                continue;
-            }
-        };
+        let mut ev = Eval::new(&eng.env, vals, lists);
+        let expected = ev.filter(expr);
+        if ev.unsupported.is_some() {
+            l.count("refsem_unsupported");
+            continue;
+        }
         let ectx = eng.ctx(vals, lists);
         let _ = take_call_log();
         let _ = take_list_log();
         let got = guard(|| filter.execute(&ectx));
+        let calls = take_call_log();
+        let queries = take_list_log();
+        obs(&ev, ci, &calls, &queries);
         let merrs = take_monitor_errors();
         if !merrs.is_empty() {
             run.violation(
@@ -284,7 +304,7 @@ pub fn check_filter(
             Err(p) => {
                 bad += 1;
                 run.violation(
-                    &format!("{}/panic-in-execute/{}/{}", prop, first_line(&p), shape(expr, 2)),
+                    &format!("{}/panic-in-execute/{}", prop, first_line(&p)),
                     "no-panic",
                     family,
                     index,
@@ -294,6 +314,20 @@ pub fn check_filter(
         }
     }
     bad
+}
+
+/// The message part of a rendered parse error (after the caret run), with
+/// digits blanked so that the signature does not depend on the input.
+pub fn error_kind(rendered: &str) -> String {
+    let line = rendered
+        .lines()
+        .find(|l| l.trim_start().starts_with('^'))
+        .unwrap_or("");
+    let msg = line.trim_start().trim_start_matches('^').trim();
+    msg.chars()
+        .map(|c| if c.is_ascii_digit() { '#' } else { c })
+        .take(120)
+        .collect()
 }
 
 pub fn first_line(s: &str) -> String {
